@@ -28,6 +28,7 @@ type gnet struct {
 	seq     int
 	wake    chan struct{}
 	c2s     [][]byte // every datagram the client sent (as sent)
+	s2c     [][]byte // every datagram the server sent (as sent, including those the network then drops)
 	onC2S   func(idx int)
 }
 
@@ -135,6 +136,7 @@ func (n *gnet) SendPacket(p simnet.Packet) error {
 		return nil
 	}
 	// towards the client: queue
+	n.s2c = append(n.s2c, data)
 	add := func(b []byte, extra time.Duration, fate string) {
 		n.seq++
 		n.pending = append(n.pending, &pend{due: n.now() + n.latency + extra, seq: n.seq, data: b, orig: data, gidx: idx, fate: fate})
